@@ -16,7 +16,8 @@ EXPLANATION = (
     "and in the order / sports-data / raw-data dispatchers the middleware loop precedes the strategy loop, "
     "neither loop can be left early, and each callback is dispatched once per strategy; (R4) the traded-volume "
     "ladder handed to the simulated matcher is copied once per strategy (inside the strategy loop, outside "
-    "the order loop) and once per instance when isolation is off; (R5) the pending-package queue shared by all "
+    "the order loop) and once per instance when isolation is off, and the matcher receives that shared entry itself, "
+    "not a per-order rebuild; (R5) the pending-package queue shared by all "
     "strategies is scanned completely with a per-package release test. The metamorphic equality run(A) = run(A+B) "
     "is not decided."
 )
